@@ -55,6 +55,11 @@ func partitionGrammar(t *simrt.Tape, service, product, suffix string) []string {
 	}
 	base := mk()
 	out := []string{base}
+	// very long ids that differ only in their last bytes (key ids longer than a VARCHAR(255) column)
+	if t.Choose(4, "part.long") == 1 {
+		long := strings.Repeat("org-unit-0123456789/", 12+t.Choose(4, "part.long.len"))
+		out = append(out, long+"alice", long+"bob")
+	}
 	// derived ids that collide structurally with base
 	derived := []string{
 		base + "_" + service + "_" + product,
@@ -255,7 +260,7 @@ func runC06(t *simrt.Tape, o Opts) Outcome {
 		st.Class = fmt.Sprint(keysOf(classes))
 		st.Sample = map[string]any{"partitions": parts, "suffix": w.Suffix, "policy": pol.String()}
 	})
-	return finish(s, w, st, false)
+	return finish(s, w, st, true)
 }
 
 // ---------------------------------------------------------------------------------------------
@@ -524,7 +529,7 @@ func runC07(t *simrt.Tape, o Opts) Outcome {
 		st.Class = fmt.Sprint(keysOf(classes))
 		st.Sample = map[string]any{"corruptions": keysOf(classes), "policy": pol.String(), "swept": swept}
 	})
-	return finish(s, w, st, false)
+	return finish(s, w, st, true)
 }
 
 func cloneDRR(d *appencryption.DataRowRecord) appencryption.DataRowRecord {
